@@ -1,3 +1,5 @@
+//go:build !skip_c20
+
 package main
 
 // C20 — One ACME account per CA and contact: registered once, persisted, always reused.
@@ -61,20 +63,20 @@ type c20HistIn struct {
 }
 
 const (
-	kLoadReg = 1 + iota
-	kLoadKey
-	kLock
-	kNewAcct
-	kStoreReg
-	kStoreKey
-	kDelReg
-	kDelKey
-	kUnlock
-	kOrder
+	c20KLoadReg = 1 + iota
+	c20KLoadKey
+	c20KLock
+	c20KNewAcct
+	c20KStoreReg
+	c20KStoreKey
+	c20KDelReg
+	c20KDelKey
+	c20KUnlock
+	c20KOrder
 )
 
-var c20KindNames = map[int]string{kLoadReg: "LoadReg", kLoadKey: "LoadKey", kLock: "Lock", kNewAcct: "newAccount", kStoreReg: "StoreReg",
-	kStoreKey: "StoreKey", kDelReg: "DeleteReg", kDelKey: "DeleteKey", kUnlock: "Unlock", kOrder: "newOrder"}
+var c20KindNames = map[int]string{c20KLoadReg: "LoadReg", c20KLoadKey: "LoadKey", c20KLock: "Lock", c20KNewAcct: "newAccount", c20KStoreReg: "StoreReg",
+	c20KStoreKey: "StoreKey", c20KDelReg: "DeleteReg", c20KDelKey: "DeleteKey", c20KUnlock: "Unlock", c20KOrder: "newOrder"}
 
 type c20Event struct {
 	Tag   int // 0 start 1 op 2 crash 3 reset
@@ -119,10 +121,10 @@ type c20Env struct {
 	csr *x509.CertificateRequest
 }
 
-var errC20Injected = errors.New("injected storage fault")
-var errC20Crashed = errors.New("instance crashed")
+var c20ErrInjected = errors.New("injected storage fault")
+var c20ErrCrashed = errors.New("instance crashed")
 
-func newC20Env() *c20Env {
+func c20NewEnv() *c20Env {
 	// production CA over HTTPS, test CA over plain HTTP on 127.0.0.1 (an internal address)
 	env := &c20Env{cas: []*mockca.CA{
 		mockca.New(mockca.Options{TLS: true, AutoValidate: true}),
@@ -176,7 +178,7 @@ type c20Run struct {
 	nLockContended int
 }
 
-func acctIdx(url string) int {
+func c20AcctIdx(url string) int {
 	i := strings.LastIndex(url, "/acct/")
 	if i < 0 {
 		return 0
@@ -197,7 +199,7 @@ func (r *c20Run) fileVal(key string) int {
 		if json.Unmarshal(v, &a) != nil {
 			return 0
 		}
-		return acctIdx(a.Location)
+		return c20AcctIdx(a.Location)
 	}
 	k, err := certmagic.PEMDecodePrivateKey(v)
 	if err != nil {
@@ -225,7 +227,7 @@ func (r *c20Run) storageHook(op *doubles.Op) error {
 	dead := r.dead[t]
 	r.mu.Unlock()
 	if dead {
-		return errC20Crashed
+		return c20ErrCrashed
 	}
 	a := c20Arrival{t: t, key: op.Key}
 	switch op.Kind {
@@ -237,32 +239,32 @@ func (r *c20Run) storageHook(op *doubles.Op) error {
 		a.kc = kc[0]
 		switch {
 		case op.Kind == "Load" && kc[1] == 0:
-			a.kind = kLoadReg
+			a.kind = c20KLoadReg
 		case op.Kind == "Load":
-			a.kind = kLoadKey
+			a.kind = c20KLoadKey
 		case op.Kind == "Store" && kc[1] == 0:
-			a.kind = kStoreReg
+			a.kind = c20KStoreReg
 		case op.Kind == "Store":
-			a.kind = kStoreKey
+			a.kind = c20KStoreKey
 		case kc[1] == 0:
-			a.kind = kDelReg
+			a.kind = c20KDelReg
 		default:
-			a.kind = kDelKey
+			a.kind = c20KDelKey
 		}
 	case "Lock":
-		a.kind = kLock
+		a.kind = c20KLock
 	case "Unlock":
-		a.kind = kUnlock
+		a.kind = c20KUnlock
 	default: // LockAcquired, anything else: not a gate
 		return nil
 	}
 	r.arrive <- a
 	rep := <-r.ths[t].reply
 	if rep.crash {
-		return errC20Crashed
+		return c20ErrCrashed
 	}
 	if rep.fault {
-		return errC20Injected
+		return c20ErrInjected
 	}
 	return nil
 }
@@ -272,9 +274,9 @@ func (r *c20Run) caHook(c int) func(*mockca.Request) *mockca.Problem {
 		var kind int
 		switch {
 		case q.Kind == "newAccount" && !q.OnlyReturnExisting:
-			kind = kNewAcct
+			kind = c20KNewAcct
 		case q.Kind == "newOrder":
-			kind = kOrder
+			kind = c20KOrder
 		default:
 			return nil
 		}
@@ -300,7 +302,7 @@ func (r *c20Run) startThread(t int) {
 	iss := certmagic.NewACMEIssuer(cfg, certmagic.ACMEIssuer{CA: r.env.cas[0].URL, TestCA: r.env.cas[1].URL, Agreed: true,
 		TrustedRoots: r.env.cas[0].Roots(), Logger: zap.NewNop(), HTTPProxy: func(*http.Request) (*url.URL, error) { return nil, nil }})
 	cfg.Issuers = []certmagic.Issuer{iss}
-	certmagic.VerifSetEmail(iss, r.email)
+	certmagic.VerifAccountSetEmail(iss, r.email)
 	attempts := 0
 	if th.c == 1 {
 		attempts = 1 // doIssue(useTestCA)
@@ -316,7 +318,7 @@ func (r *c20Run) startThread(t int) {
 			}()
 			ctx, cancel := context.WithTimeout(context.Background(), 60*time.Second)
 			defer cancel()
-			ic, _, err := certmagic.VerifDoIssue(ctx, iss, r.env.csr, attempts)
+			ic, _, err := certmagic.VerifAccountDoIssue(ctx, iss, r.env.csr, attempts)
 			a.err = err
 			if err == nil && ic != nil {
 				if m, ok := ic.Metadata.(acme.Certificate); ok {
@@ -340,14 +342,14 @@ func (r *c20Run) await(t int) error {
 			ev := &r.events[th.last]
 			if !ev.Fault {
 				switch ev.Kind {
-				case kStoreReg, kStoreKey:
+				case c20KStoreReg, c20KStoreKey:
 					ev.V = r.fileVal(th.gate.key)
-				case kNewAcct:
+				case c20KNewAcct:
 					q := r.env.cas[ev.KC].Requests()[th.gate.reqSeq]
 					if q.Created {
-						ev.V = acctIdx(q.Account)
+						ev.V = c20AcctIdx(q.Account)
 					}
-				case kOrder:
+				case c20KOrder:
 					q := r.env.cas[ev.KC].Requests()[th.gate.reqSeq]
 					if os.Getenv("C20_DEBUG") != "" {
 						fmt.Fprintf(os.Stderr, "order seq=%d %+v\n", th.gate.reqSeq, q)
@@ -367,7 +369,7 @@ func (r *c20Run) await(t int) error {
 		if a.finished {
 			th.state = 3
 			if a.err == nil {
-				i := acctIdx(a.acctURL)
+				i := c20AcctIdx(a.acctURL)
 				th.res = [2]int{i, i}
 			} else if strings.HasPrefix(a.err.Error(), "PANIC") {
 				return a.err
@@ -382,11 +384,11 @@ func (r *c20Run) await(t int) error {
 	}
 }
 
-func runC20Hist(env *c20Env, email string, cas []int, choose c20Chooser, maxSteps int) (*c20Run, *c20Final, error) {
+func c20RunHist(env *c20Env, email string, cas []int, choose c20Chooser, maxSteps int) (*c20Run, *c20Final, error) {
 	for _, c := range env.cas {
 		c.Wipe()
 	}
-	certmagic.VerifResetDiscoveredEmail()
+	certmagic.VerifAccountResetDiscoveredEmail()
 	r := &c20Run{env: env, b: doubles.NewMemBackend(), email: email, arrive: make(chan c20Arrival), dead: map[int]bool{}, cur: -1, holder: -1,
 		keys: map[string][2]int{}}
 	for c, ca := range env.cas {
@@ -440,7 +442,7 @@ func runC20Hist(env *c20Env, email string, cas []int, choose c20Chooser, maxStep
 				unfinished++
 			case 2:
 				unfinished++
-				if th.gate.kind == kLock && r.holder != -1 {
+				if th.gate.kind == c20KLock && r.holder != -1 {
 					continue // Storage.Lock would block: the lock is held
 				}
 				enabled = append(enabled, c20Action{K: "step", T: t, C: th.c})
@@ -477,27 +479,27 @@ func runC20Hist(env *c20Env, email string, cas []int, choose c20Chooser, maxStep
 				return abort(fmt.Errorf("c20 harness: step of thread %d which is not at a gate", a.T))
 			}
 			g := th.gate
-			if g.kind == kLock && !a.F && r.holder != -1 {
+			if g.kind == c20KLock && !a.F && r.holder != -1 {
 				return abort(fmt.Errorf("c20 harness: Lock step while the lock is held"))
 			}
-			if g.kind == kUnlock {
+			if g.kind == c20KUnlock {
 				a.F = false
 				r.script[len(r.script)-1].F = false
 			}
 			ev := c20Event{Tag: 1, T: a.T, Fault: a.F, Kind: g.kind, KC: g.kc}
 			if !a.F {
 				switch g.kind {
-				case kLoadReg, kLoadKey:
+				case c20KLoadReg, c20KLoadKey:
 					ev.V = r.fileVal(g.key)
-				case kLock:
+				case c20KLock:
 					r.holder = a.T
-				case kUnlock:
+				case c20KUnlock:
 					r.holder = -1
 				}
-			} else if g.kind == kOrder {
+			} else if g.kind == c20KOrder {
 				ev.V = 2
 			}
-			if g.kind == kLock || g.kind == kUnlock {
+			if g.kind == c20KLock || g.kind == c20KUnlock {
 				ev.KC = 0
 			}
 			r.events = append(r.events, ev)
@@ -697,7 +699,7 @@ func c20Random(rr *rand.Rand, sh c20Shape) c20Chooser {
 		default:
 			a = cand[rr.Intn(len(cand))]
 		}
-		if a.K == "step" && faults < sh.maxFaults && rr.Float64() < sh.pFault && ths[a.T].gate.kind != kUnlock {
+		if a.K == "step" && faults < sh.maxFaults && rr.Float64() < sh.pFault && ths[a.T].gate.kind != c20KUnlock {
 			a.F = true
 			faults++
 		}
@@ -797,14 +799,14 @@ func runC20(tier string, seed int64, outdir string, replay string) error {
 	rr := rand.New(rand.NewSource(seed))
 	// the internal rate limiter is C17's subject; switch it off (it is keyed by CA + e-mail)
 	certmagic.RateLimitEvents, certmagic.RateLimitEventsWindow = 0, 0
-	env := newC20Env()
+	env := c20NewEnv()
 	defer env.close()
 
 	addHist := func(class string, email string, cas []int, choose c20Chooser, feats map[string]any) error {
 		if feats == nil {
 			feats = map[string]any{}
 		}
-		r, fin, err := runC20Hist(env, email, cas, choose, 600)
+		r, fin, err := c20RunHist(env, email, cas, choose, 600)
 		if err != nil {
 			if r != nil && strings.HasPrefix(err.Error(), "PANIC") {
 				// a panic inside doIssue is an observation, not a harness failure: report the history so
@@ -827,10 +829,10 @@ func runC20(tier string, seed int64, outdir string, replay string) error {
 			case e.Tag == 3:
 				nr++
 			}
-			if e.Tag == 1 && e.Kind == kNewAcct && e.V > 0 {
+			if e.Tag == 1 && e.Kind == c20KNewAcct && e.V > 0 {
 				nreg++
 			}
-			if e.Tag == 1 && e.Kind == kLock {
+			if e.Tag == 1 && e.Kind == c20KLock {
 				nlock[e.T] = true
 			}
 		}
@@ -874,7 +876,7 @@ func runC20(tier string, seed int64, outdir string, replay string) error {
 		if effCA == "" {
 			effCA = certmagic.DefaultACME.CA
 		}
-		dir, err := certmagic.VerifACMEDirectory(iss, useTest)
+		dir, err := certmagic.VerifAccountACMEDirectory(iss, useTest)
 		e := &emit.Enc{}
 		e.Int(1).Str(effCA).Str(test).Bool(useTest)
 		c20UrlTables(e, effCA, test)
@@ -953,7 +955,7 @@ func runC20(tier string, seed int64, outdir string, replay string) error {
 				}
 				iss := c20Issuer(j.ca, j.test, tr)
 				ctx, cancel := context.WithTimeout(context.Background(), 60*time.Millisecond)
-				err := certmagic.VerifFetchDirectory(ctx, iss, j.useTest)
+				err := certmagic.VerifAccountFetchDirectory(ctx, iss, j.useTest)
 				cancel()
 				out[i].err = err
 			}(i, j)
@@ -1005,7 +1007,7 @@ func runC20(tier string, seed int64, outdir string, replay string) error {
 		ca := env.cas[0]
 		ca.Wipe()
 		ca.Hook = nil
-		certmagic.VerifResetDiscoveredEmail()
+		certmagic.VerifAccountResetDiscoveredEmail()
 		b := doubles.NewMemBackend()
 		const email = "k@example.com"
 		key, _ := ecdsa.GenerateKey(elliptic.P256(), crand.Reader)
@@ -1037,11 +1039,11 @@ func runC20(tier string, seed int64, outdir string, replay string) error {
 		iss := certmagic.NewACMEIssuer(cfg, certmagic.ACMEIssuer{CA: ca.URL, AccountKeyPEM: string(pemK), Agreed: true, TrustedRoots: ca.Roots(), Logger: zap.NewNop(),
 			HTTPProxy: func(*http.Request) (*url.URL, error) { return nil, nil }})
 		if withEmail {
-			certmagic.VerifSetEmail(iss, email)
+			certmagic.VerifAccountSetEmail(iss, email)
 		}
 		ctx, cancel := context.WithTimeout(context.Background(), 20*time.Second)
 		defer cancel()
-		acct, _, err := certmagic.VerifNewACMEClientWithAccount(ctx, iss, false)
+		acct, _, err := certmagic.VerifAccountNewACMEClientWithAccount(ctx, iss, false)
 		lookups, created := 0, 0
 		for _, q := range ca.Requests() {
 			if q.Kind == "newAccount" && q.OnlyReturnExisting {
@@ -1149,7 +1151,7 @@ func runC20(tier string, seed int64, outdir string, replay string) error {
 			c20Scripted(cat(one(St(0, 0)), rep(S(0), 9), one(St(1, 1)), rep(S(1), 9), one(Rs(1)), one(St(2, 1)), rep(S(2), 14), one(St(3, 0)))), nil); err != nil {
 			return err
 		}
-		// 1117f7d: one instance, the CA was re-installed: exactly one new account, and it is used
+		// 78ef728: one instance, the CA was re-installed: exactly one new account, and it is used
 		if err := addHist("seq-recreate", email, []int{0, 0, 0},
 			c20Scripted(cat(one(St(0, 0)), rep(S(0), 9), one(Rs(0)), one(St(1, 0)))), map[string]any{"witness": "ca-reinstalled-single-instance"}); err != nil {
 			return err
@@ -1279,7 +1281,7 @@ func runC20(tier string, seed int64, outdir string, replay string) error {
 		contactJob{good, "", false}, contactJob{"http://acme.example.com/dir", "", false}, contactJob{good, "http://10.1.2.3/dir", true},
 		contactJob{good, "testca.public.example/dir", true}, contactJob{good, "http:testca.public.example/dir", true})
 	// every host of the table over plain HTTP, as CA and as test CA: whatever the rule lets through
-	// must be internal under the name that is really contacted (f8aa9e1: "example.İnternal")
+	// must be internal under the name that is really contacted (0b655e3: "example.İnternal")
 	for _, h := range c20Hosts {
 		jobs = append(jobs, contactJob{"http://" + h + "/dir", "", false}, contactJob{good, "HTTP://" + h + ":8080/dir", true})
 	}
